@@ -26,6 +26,8 @@ N_RANDOM = {"quick": 5000, "thorough": 20000}
 
 def check(toks, resp, mode, build):
     op = toks[0]
+    if op == "fmtfail":
+        return C.check_fmtfail(toks, resp, mode)
     if op == "serde_de":
         # JSON string -> Decimal goes through the same parser: accept exactly what from_str accepts
         js = E.unhex(toks[1])
@@ -117,6 +119,10 @@ def gen(rng, tier, shard, batch):
         elif k < 0.4 and p > 0:
             a = rng.randrange(0, 1000) * rng.choice((1, -1))  # many leading zeros
         reqs += all_ops(a, p)
+        if rng.random() < 0.02:
+            # a write into a sink that fails part-way; the following requests must be unaffected
+            c2, s2 = G.dec(rng)
+            reqs.append("fmtfail %d - %s" % (rng.randrange(0, 45), G.fD(c2, s2)))
     return reqs
 
 
